@@ -1286,6 +1286,13 @@ class Facts:
             self._cg = cg
         return self._cg
 
+    def callgraph_nodes(self):
+        cg = self.callgraph()
+        nodes = set(cg)
+        for v in cg.values():
+            nodes |= v
+        return nodes
+
     def reachable_fns(self, roots, stop=()):
         cg = self.callgraph()
         seen = set()
